@@ -95,6 +95,12 @@ namespace bloch::compiler {
     }
 
     std::unique_ptr<Program> ModuleLoader::parseFile(const std::string& path) const {
+        // a directory can be opened (and then fails on the first read with a raw stream error)
+        std::error_code ec;
+        if (fs::is_directory(path, ec)) {
+            throw BlochError(ErrorCategory::Parse, 0, 0,
+                             "failed to open '" + path + "': it is a directory");
+        }
         std::ifstream in(path);
         if (!in) {
             throw BlochError(ErrorCategory::Parse, 0, 0, "failed to open '" + path + "'");
